@@ -1,7 +1,7 @@
 (* C15 — tuning is negotiated as documented (and then obeyed: see the links below).
    This file only pins statements. *)
 From Coq Require Import String.
-From Amq Require Import Lib.Base Gen.Consts Model.Tune Spec.Tune Proofs.Tune Gen.Src Proofs.TuneSrc Model.Publish Proofs.PublishSrc.
+From Amq Require Import Lib.Base Gen.Consts Model.Tune Spec.Tune Proofs.Tune Lib.RsResult Gen.SrcTune Proofs.TuneSrc Model.Publish Gen.SrcLimit Proofs.PublishSrc.
 
 (* the constant the crate compiles in (regenerated from the crate on every run) is the
    protocol's frame-min-size *)
